@@ -170,6 +170,20 @@ func genInjectCase(r *Rng) *ICase {
 				lb["__invalid_label_bad-name"] = "v"
 			}
 			c.Assign[jn] = append(c.Assign[jn], ITarget{Hash: h, Labels: lb})
+			// the multi-target exporter pattern: more targets behind the same address and path,
+			// told apart by a parameter and the instance label only
+			if r.Chance(15) {
+				for k := 0; k < 1+r.Intn(2); k++ {
+					h++
+					cp := map[string]string{}
+					for kk, v := range lb {
+						cp[kk] = v
+					}
+					cp["__param_target"] = fmt.Sprintf("probe%d", k)
+					cp["instance"] = fmt.Sprintf("probe%d", k)
+					c.Assign[jn] = append(c.Assign[jn], ITarget{Hash: h, Labels: cp})
+				}
+			}
 		}
 	}
 	// a reload: the injector already holds an earlier configuration - the same one with other external
